@@ -66,6 +66,8 @@ Definition push (c: cfg) (s: st) (j: nat) : st :=
 (* an item whose pipeline has no closure at all (collect without map) completes invisibly *)
 Definition zero_stage (c: cfg) := negb (has_map c) && negb (has_term c).
 
+Definition tfe_blocked (c: cfg) (s: st) : bool := match c_term c, residual s with TTryForEach, Some _ => true | _, _ => false end.
+
 Definition step (c: cfg) (s: st) (e: event) : option st :=
   match e with
   | ESrc (Some j) =>
@@ -104,6 +106,8 @@ Definition step (c: cfg) (s: st) (e: event) : option st :=
             | _, _, _ => None      (* nothing is pulled from the group once an error is stored *)
             end
       | Some WTerm, 1 =>
+          (* try_for_each: nothing is pulled from the group once an error is stored - in-flight closure futures are dropped unfinished *)
+          if tfe_blocked c s then None else
           let s1 := set_works s (setw j WDone (works s)) in
           let s2 := match err, c_term c with
                     | Some e, TTryForEach =>
